@@ -33,6 +33,8 @@ func main() {
 		cmdLock(os.Args[2:])
 	case "locals":
 		cmdLocals(os.Args[2:])
+	case "renamelocals":
+		cmdRenameLocals(os.Args[2:])
 	case "replay":
 		cmdReplay(os.Args[2:])
 	case "selftest":
